@@ -810,6 +810,18 @@ func genSeqGrid(r *rng, n int, p func(string, ...any)) {
 			p("use s1 %s", hexs(fresh.enc()))
 		}
 	}
+	// C11: a decoded COSE_Sign whose signature is emptied afterwards cannot be encoded
+	for nsig := 1; nsig <= 3; nsig++ {
+		arr := wArr()
+		for i := 0; i < nsig; i++ {
+			arr.Items = append(arr.Items, wArr(wBstr(wMap(wInt(1), wInt(-7)).enc()), wMap(), wBstr([]byte{byte(i + 1)})))
+		}
+		sm := wTag(98, wArr(wBstr([]byte{}), wMap(), wBstr([]byte{9}), arr))
+		for i := 0; i <= nsig; i++ {
+			p("smempty %s %d nil", hexs(sm.enc()), i)
+			p("smempty %s %d empty", hexs(sm.enc()), i)
+		}
+	}
 	// C02 / C18: verify, change the retained protected bytes in place, verify again
 	for i := 0; i < n/4+20; i++ {
 		kind := []string{"s1", "sm"}[r.intn(2)]
